@@ -47,6 +47,7 @@ func crashGen(r *rand.Rand, mode string, thorough bool) dbCase {
 		}
 		if mode == "async" {
 			opts.Async = true
+			opts.DirectIOWAL = r.Intn(4) == 0 // block aligned WAL writes (O_DIRECT itself is a declared stub)
 			nclients = 1
 			opts.Memstore = pick(r, uint64(64), 256, 1024, 1<<20, 5<<20, 1<<30)
 		}
